@@ -394,6 +394,10 @@ func aeEnumerate(s *Shard, prop string, fn func(c *Case)) {
 			typeSets = append(typeSets, []string{"cost", "gain"}) // a gain criterion listed after a cost criterion
 		}
 		ws := [][]float64{{2, 1}, {1, 2}, {1, 1}}
+		if g.n <= 2 {
+			// distinct weights closer than any tolerance used elsewhere in the library, and weights at the 1e-7 scale
+			ws = append(ws, []float64{0.5, 0.5000005}, []float64{0.5000005, 0.5}, []float64{3e-7, 1e-7}, []float64{1e-7, 3e-7})
+		}
 		if g.m == 3 {
 			typeSets = [][]string{{"gain", "gain", "gain"}, {"cost", "gain", "cost"}}
 			ws = [][]float64{{3, 2, 1}, {1, 3, 2}, {2, 1, 3}, {1, 1, 2}}
